@@ -47,7 +47,7 @@ def snapshot(ttn):
 
 
 class Driver:
-    def __init__(self, ttn_cls=TreeTensorNetwork, nprs=None, ints=None, complex_=True, lowrank=0.0, share=False):
+    def __init__(self, ttn_cls=TreeTensorNetwork, nprs=None, ints=None, complex_=True, lowrank=0.0, share=False, ghz=False, intdtype=False):
         self.ttn = ttn_cls()
         self.atoms = []          # atom index -> ndarray (raw value at creation)
         self.nprs = nprs or np.random.RandomState(0)
@@ -59,8 +59,15 @@ class Driver:
         self.lowrank = lowrank
         self.share = share            # nodes with equal tensor shapes receive the SAME ndarray object
         self._shared = {}
+        self.intdtype = intdtype      # with ints and complex_=False: tensors of an INTEGER numpy dtype (hand-written states)
+        self.ghz = ghz                # copy tensors (delta on all legs): exactly degenerate Schmidt spectrum on every bond
 
     def _rand(self, shape):
+        if self.ghz and len(shape) >= 1:
+            t = np.zeros(shape, dtype=complex if self.complex else float)
+            for i in range(min(shape)):
+                t[(i,) * len(shape)] = 1.0
+            return t
         if self.share:
             key = tuple(shape)
             if key not in self._shared:
@@ -77,7 +84,10 @@ class Driver:
                 x = np.multiply.outer(x, y)
             return x
         if self.ints is not None:
-            t = self.nprs.randint(-self.ints, self.ints + 1, size=shape).astype(float)
+            t = self.nprs.randint(-self.ints, self.ints + 1, size=shape)
+            if self.intdtype and not self.complex:
+                return t.astype(np.int64)
+            t = t.astype(float)
             if self.complex:
                 t = t + 1j * self.nprs.randint(-self.ints, self.ints + 1, size=shape)
             return t
